@@ -76,6 +76,42 @@ theorem same_when_close (a b : ℝ) (h : |a - b| < 90) : sameDirection a b = tru
     constructor <;> linarith
   simp [hr, h]
 
+/-- azimuths are angles: whole turns added to either of them change nothing -/
+theorem sameDirection_period (a b : ℝ) (k m : ℤ) :
+    sameDirection (a + k * 360) (b + m * 360) = sameDirection a b := by
+  rw [sameDirection_real, sameDirection_real]
+  have h1 : (a + k * 360 - (b + m * 360)) / 360 = (a - b) / 360 + ((k - m : ℤ) : ℝ) := by
+    push_cast; ring
+  rw [h1, round_add_intCast]
+  have h2 : a + k * 360 - (b + m * 360) - ((round ((a - b) / 360) + (k - m) : ℤ) : ℝ) * 360 =
+      a - b - (round ((a - b) / 360) : ℝ) * 360 := by
+    push_cast; ring
+  rw [h2]
+
+/-- exactly: two azimuths point the same way iff they differ from each other by less than a
+    quarter turn after removing some whole number of turns -/
+theorem sameDirection_iff (a b : ℝ) :
+    sameDirection a b = true ↔ ∃ k : ℤ, |a - b - k * 360| < 90 := by
+  rw [sameDirection_real, decide_eq_true_eq]
+  constructor
+  · intro h; exact ⟨round ((a - b) / 360), h⟩
+  · rintro ⟨k, hk⟩
+    have hr : round ((a - b) / 360) = k := by
+      have h1 : (a - b) / 360 = (a - b - k * 360) / 360 + (k : ℝ) := by ring
+      rw [h1, round_add_intCast]
+      have h0 : round ((a - b - k * 360) / 360) = 0 := by
+        rw [round_eq_zero_iff]
+        have := abs_lt.mp hk
+        constructor <;> linarith
+      rw [h0, zero_add]
+    rw [hr]; exact hk
+
+/-- the order of the two azimuths does not matter -/
+theorem sameDirection_symm (a b : ℝ) : sameDirection a b = sameDirection b a := by
+  rw [Bool.eq_iff_iff, sameDirection_iff, sameDirection_iff]
+  constructor <;> rintro ⟨k, hk⟩ <;> refine ⟨-k, ?_⟩ <;>
+    · rw [← abs_neg]; push_cast; convert hk using 2; ring
+
 /-- the bounded intersection returns the point exactly when, for both segments, the azimuth from
     its first end towards the point and from the point towards its second end agree — i.e. the
     point lies inside both segments — and reports an error when it lies outside either -/
